@@ -108,7 +108,7 @@ Section C09H.
   Proof.
     intros Hl h Hrd. destruct (hub_ok_run l Hl) as [[hist Hf] Hhead]. fold h in Hf, Hhead.
     specialize (Hhead Hrd).
-    destruct (fed_post U first kept Hid Huniq Hup Hdecl _ _ Hf Hhead) as (a & Fin & S & c & HP & Hc & _ & HFR).
+    destruct (fed_post U first kept Hid Huniq Hup Hdecl _ _ Hf Hhead) as (a & Fin & S & c & HP & Hc & _ & HFR & _).
     set (s := h_f h) in *.
     pose proof (po_a U cfg a s Fin S c HP) as Ha. pose proof (po_inv U cfg a s Fin S c HP) as HI.
     destruct (inv_lib U cfg a s Fin S Ha HI) as [HLU Hlib].
